@@ -253,6 +253,18 @@ func (fr *Frame) applyCallAnn(a *CallAnn, recv *Val, args []Val, ret *Val, pre, 
 	if ret != nil {
 		env.old = pre
 	}
+	// before(e) in a call-site annotation: the value at the head of the innermost enclosing loop, in this iteration
+	if fr.curBlock != nil {
+		var best *loopInfo
+		for _, li := range fr.loops {
+			if li.blocks[fr.curBlock] && li.hstate != nil && (best == nil || len(li.blocks) < len(best.blocks)) {
+				best = li
+			}
+		}
+		if best != nil {
+			env.before = best.hstate
+		}
+	}
 	for _, uf := range a.Unfolds {
 		// unfold P(args): at this point the definition of this one instance is available (atom ==> body)
 		call, ok := uf.E.(*ECall)
@@ -813,6 +825,39 @@ func (fr *Frame) appendBuiltin(common *ssa.CallCommon, args []Val, st *State, R 
 	}
 	newLen := c.define("len", bvSort(64), app("bvadd", s.L[2], addLen))
 	c.assume(R, app("bvult", newLen, lenBound))
+	if fromReslice(common.Args[0], 0) {
+		// the buffer-reuse idiom (buf = buf[:0]; buf = append(buf, ...)): the slice was cut shorter than its array, so
+		// append may write in place - modelled as a free choice between writing behind the slice in its own array and
+		// copying to a fresh one.
+		c.note("append to a re-sliced buffer modelled as in-place write or fresh copy (free choice)")
+		ip := c.fresh("inplace", SBool)
+		ipc := tAnd(ip, tNot(tEq(s.L[0], "null")))
+		for _, l := range c.leaves(el) {
+			key := "E|" + c.typeKey(el) + l.Path
+			rs := arrSort(bvSort(64), l.Sort)
+			sort := arrSort(SRef, rs)
+			cur := c.comp(st, key, sort)
+			rowF := c.fresh("row", rs)
+			rowI := c.fresh("row", rs)
+			var src2, src2i string
+			if srcStr != "" {
+				src2 = app("strbyte", srcStr, app("bvsub", "i", s.L[2]))
+				src2i = app("strbyte", srcStr, app("bvsub", app("bvsub", "i", s.L[1]), s.L[2]))
+			} else {
+				src2 = tSel(tSel(cur, srcBase), idxAt(srcOff, app("bvsub", "i", s.L[2])))
+				src2i = tSel(tSel(cur, srcBase), idxAt(srcOff, app("bvsub", app("bvsub", "i", s.L[1]), s.L[2])))
+			}
+			src1 := tSel(tSel(cur, s.L[0]), idxAt(s.L[1], "i"))
+			bodyF := tIte(app("bvult", "i", s.L[2]), src1, tIte(app("bvult", "i", newLen), src2, c.zeroLeaf(l)))
+			c.assume("true", fmt.Sprintf("(forall ((i (_ BitVec 64))) (! (= (select %s i) %s) :pattern ((select %s i))))", rowF, bodyF, rowF))
+			lo := app("bvadd", s.L[1], s.L[2])
+			hi := app("bvadd", s.L[1], newLen)
+			bodyI := tIte(tAnd(app("bvule", lo, "i"), app("bvult", "i", hi)), src2i, tSel(tSel(cur, s.L[0]), "i"))
+			c.assume("true", fmt.Sprintf("(forall ((i (_ BitVec 64))) (! (= (select %s i) %s) :pattern ((select %s i))))", rowI, bodyI, rowI))
+			c.setComp(st, key, sort, tIte(ipc, tStore(cur, s.L[0], rowI), tStore(cur, nb, rowF)))
+		}
+		return Val{T: T, L: []string{tIte(ipc, s.L[0], nb), tIte(ipc, s.L[1], bvU(0, 64)), newLen}}
+	}
 	c.note("append modelled as copy to a fresh backing array (aliasing through spare capacity not modelled, A-APPEND)")
 	for _, l := range c.leaves(el) {
 		key := "E|" + c.typeKey(el) + l.Path
@@ -832,6 +877,26 @@ func (fr *Frame) appendBuiltin(common *ssa.CallCommon, args []Val, st *State, R 
 		c.setComp(st, key, sort, tStore(cur, nb, row))
 	}
 	return Val{T: T, L: []string{nb, bvU(0, 64), newLen}}
+}
+
+// fromReslice: the value is a slice cut out of another slice (x[lo:hi]), possibly through phis: its array may extend
+// beyond its length.
+func fromReslice(v ssa.Value, depth int) bool {
+	if depth > 4 {
+		return false
+	}
+	switch x := v.(type) {
+	case *ssa.Slice:
+		_, isSlice := x.X.Type().Underlying().(*types.Slice)
+		return isSlice
+	case *ssa.Phi:
+		for _, e := range x.Edges {
+			if fromReslice(e, depth+1) {
+				return true
+			}
+		}
+	}
+	return false
 }
 
 func (fr *Frame) copyBuiltin(common *ssa.CallCommon, args []Val, st *State, R string) Val {
